@@ -19,7 +19,7 @@ META = dict(
     level="model_checking",
     technique="bounded symbolic execution (z3) of Unit ordering and of one Continuum operation from an arbitrary invariant pre-state (inductive step), real SortedSet/SortedDict running on symbolic units",
     design_ref="section 4 / C13",
-    claim="Order lemma: for all real coordinates and all label triples over {None,'a','b'}, Unit's <, <=, >, >=, == form the documented strict total "
+    claim="Order lemma: for all real coordinates and all label triples over {None,'','a','b'}, Unit's <, <=, >, >=, == form the documented strict total "
           "order. Inductive step: for every pre-state in the bound (any coordinates, any bounds slack, extra categories) and every operation of "
           "{add, add_annotator, remove, merge in/out of place, copy, copy_flush, reset_bounds, ==, item access, iteration, counts} with symbolic "
           "arguments, the post-state equals the set-per-annotator model's, satisfies the invariant (sorted strictly, no duplicates, categories cover "
@@ -34,7 +34,7 @@ META = dict(
     cfg_budget_s=dict(quick=240, thorough=900),
 )
 
-ALPHA = [None, "a", "b"]
+ALPHA = [None, "", "a", "b"]       # the empty string is a label too (and it is falsy, like None)
 OPS = ["add", "add_zero", "add_annotator", "remove_present", "remove_absent", "copy", "copy_flush", "reset_bounds",
        "merge", "merge_inplace", "eq", "views", "add_many"]
 
@@ -46,14 +46,14 @@ def configs(tier):
     trip = list(itertools.product(ALPHA, repeat=3))
     for labs in (trip if tier == "thorough" else [t for i, t in enumerate(trip) if i % 3 == 0 or None in t][:14]):
         out.append(dict(key=f"order-lemma,triple,labels={labs}", kind="order3", labels=list(labs), cost=200))
-    pre = [((1,), [None]), ((1,), ["a"]), ((2,), [None, None]), ((2,), ["a", None]), ((2,), ["a", "b"]),
+    pre = [((1,), [None]), ((1,), ["a"]), ((2,), [None, None]), ((2,), ["a", None]), ((2,), ["a", "b"]), ((2,), ["", None]), ((2,), [None, ""]),
            ((1, 1), [None, "a"]), ((1, 1), ["b", "b"]), ((0, 1), ["a"]), ((2, 1), ["a", "a", None])]
     if tier == "thorough":
         pre += [((2, 2), ["a", None, "b", "a"]), ((3,), ["a", "a", "b"]), ((3,), [None, "a", None]), ((2, 1), [None, None, "b"]),
                 ((2,), ["b", "a"]), ((1, 1), [None, None])]
     for sizes, labs in pre:
         for op in OPS:
-            nl = [None, "a", "c"] if op in ("add", "remove_absent", "remove_present") else [None]
+            nl = [None, "a", "c", ""] if op in ("add", "remove_absent", "remove_present") else [None]
             for newlab in nl:
                 if op == "remove_present" and newlab != None:      # noqa: E711
                     continue
